@@ -222,6 +222,26 @@ def check_C13(ctx):
                             (form, st(a), st(b), bits[k], want[k]), {'case': 'cmp', 'pair': ab, 'bits': bits, 'expected': want})
         if mo != ho and not any(v[0] == 'comparison' for v in ctx.violations):
             report_broken(ctx, [{'case': 'cmp', 'hraw': ho, 'mraw': mo}], 'comparisons', 'the 18 operators = model oo_*/ov_*/vo_*')
+    # the same order when an operand is a table Entry (derived from Optional)
+    he = run_objs(pool, ['cmpe'])[0]
+    ctx.count('comparisons', 'cmpe')
+    if he.startswith(BADOUT) or not he.startswith('cmpe='):
+        ctx.violate('memory-error', 'comparison operators with Entry operands crashed: %s' % he[:300], {'case': 'cmpe', 'output': he})
+    else:
+        bit = lambda x: '1' if x else '0'
+        key = lambda s: (0, 0) if s < 0 else (1, s)
+        for item in he[5:].split(','):
+            ab, bits = item.split('=')
+            a, b = (int(x) for x in ab.split('/'))
+            six = bit(key(a) == key(b)) + bit(key(a) != key(b)) + bit(key(a) < key(b)) + bit(key(a) > key(b)) + bit(key(a) <= key(b)) + bit(key(a) >= key(b))
+            want = six * 3 + (six if b >= 0 else '------') + (six if a >= 0 else '------')
+            if bits != want:
+                names = ['==', '!=', '<', '>', '<=', '>=']
+                k = next(i for i in range(30) if bits[i] != want[i])
+                form = ['Optional %s Entry', 'Entry %s Optional', 'Entry %s Entry', 'Entry %s value', 'value %s Entry'][k // 6] % names[k % 6]
+                st = lambda s: 'empty' if s < 0 else str(s)
+                ctx.violate('comparison', '%s with left=%s right=%s gives %s; the order (empty < every value, else the values decide) requires %s' %
+                            (form, st(a), st(b), bits[k], want[k]), {'case': 'cmpe', 'pair': ab, 'bits': bits, 'expected': want})
     # error messages: defined for every enumerator, "Unknown Error" beyond
     names = error_enumerators()
     mo_ = run_objs(pool, ['msgs'])[0]
@@ -309,6 +329,7 @@ def variant_post_state(line, out):
 def check_C12(ctx):
     proofs_or_violation(ctx, ['Properties_C12.v'], bridge=False)
     pool = get_pool()
+    rng = ctx.rng
     setups = [[], ['N0'], ['V0:0:5:0'], ['V0:1:5:0', 'N1'], ['V0:0:5:0', 'V1:2:6:0'], ['V0:2:5:0', 'V1:2:6:0'], ['N0', 'N1'],
               ['V0:1:5:0', 'V1:0:6:0', 'N2']]
     alpha = var_alphabet([0, 1], [0, 2], [7], [-1, 1, 3], [0]) + ['s0:1:8:1', 's1:2:8:1', 'V1:0:8:1', 'a0:2', 'm0:2', 'm2:0', 'B0:-2', 'B1:100']
@@ -316,6 +337,46 @@ def check_C12(ctx):
     cases = histories(ctx, alpha, setups, rnd, ['var'], 2 if ctx.quick else 3, 3000 if ctx.quick else 80000, 16 if ctx.quick else 40)
     n = run_histories(ctx, pool, cases, 'A', 'variant-histories',
                       'Variant<Tr<0>,Tr<1>,Tr<2>> index, active element, Visit/get/is observers and element lifetime after every step = model v_step', extra_oracle=variant_post_state)
+    # element move constructors that throw while a Variant is move-constructed (Y) or move-assigned (y): the exception
+    # propagates (a std::terminate shows as a crash), the target of a failed construction does not exist, the target of
+    # a failed assignment from another alternative is empty, the source keeps its element, lifetimes balance.
+    # These operations are outside the model's alphabet: judged by the oracles only.
+    tcases = []
+    for su in (['V0:0:5:0'], ['V0:1:5:0', 'V1:2:6:0'], ['V0:1:5:0', 'V1:1:6:0'], ['N0', 'V1:0:3:0'], ['V0:2:4:0', 'N1']):
+        for ops_ in (['Y2:0'], ['y1:0'], ['y0:1'], ['Y2:1', 'D1'], ['y1:0', 'y0:1', 'X2:0'], ['Y2:0', 'X2:0', 'y0:2'], ['y1:0', 'a1:0', 'm0:1']):
+            tcases.append(su + ops_)
+    for _ in range(200 if ctx.quick else 5000):
+        tcases.append([rng.choice(rnd + ['Y0:1', 'Y1:0', 'Y2:0', 'Y2:1', 'y0:1', 'y1:0', 'y2:0', 'y0:2', 'y1:1']) for _ in range(rng.randint(3, 14))])
+    tl_ = ['var ' + ','.join(sq) for sq in tcases]
+    to_ = run_objs(pool, tl_)
+    for line, o in zip(tl_, to_):
+        ctx.count('variant-throwing-moves', line)
+        if o.startswith(BADOUT):
+            ctx.violate('memory-error', 'variant-throwing-moves: crashed, called std::terminate or tripped a sanitizer: %s -> %s' % (line[:200], o[:300]), {'case': line, 'output': o})
+            continue
+        v = lifetime_oracle(o, 'A')
+        if not v:
+            # post-states of the throwing operations
+            ops_, raw, i_, prev = line.split(' ')[1].split(','), o.split(' '), 0, ['X', 'X', 'X']
+            for op in ops_:
+                skipped = raw[i_] == 'skip'
+                tok = raw[i_ + 1] if skipped else raw[i_]
+                i_ += 2 if skipped else 1
+                st = tok.split('|', 1)[1].split(';')
+                if not skipped and op[0] in 'Yy':
+                    t_, k_ = (int(x) for x in op[1:].split(':'))
+                    src = prev[k_]
+                    if src != 'E' and st[k_] != src and t_ != k_ and not (op[0] == 'y' and prev[t_] != 'E' and prev[t_].split(':')[0] == src.split(':')[0]):
+                        v = 'after %s the source object %d changed from %s to %s although the move threw' % (op, k_, src, st[k_])
+                    elif op[0] == 'Y' and src != 'E' and st[t_] != 'X':
+                        v = 'after %s (the element move constructor threw) object %d exists: %s' % (op, t_, st[t_])
+                    elif op[0] == 'y' and src != 'E' and t_ != k_ and prev[t_].split(':')[0] != src.split(':')[0] and st[t_] != 'E':
+                        v = 'after %s (assignment from another alternative, the element move constructor threw) object %d is %s, not empty' % (op, t_, st[t_])
+                    if v:
+                        break
+                prev = st
+        if v:
+            ctx.violate('lifetime:var-throw', 'variant-throwing-moves: %s; history: %s' % (v, line[:300]), {'case': line, 'output': o})
     # a Variant whose alternatives 0 and 2 are trivially destructible (float, int) and 1 and 3 track their lifetime:
     # only the tracked ones are counted; the model is compared on which alternative is active
     malpha = var_alphabet([0, 1], [0, 1, 2, 3], [7], [-1, 1, 4], [0]) + ['s0:1:8:1', 's1:3:8:1', 'V1:3:8:1', 'a0:2', 'm0:2', 'm2:0']
@@ -577,7 +638,7 @@ def check_C15(ctx):
     for i in tids:
         for _ in range(12 if ctx.quick else 200):
             v = nopgen.gen_value(pool.types[i], rng)
-            v = re.sub(r'\(hnd -?\d+\)', lambda m_: '(hnd %d)' % rng.choice([-2, -5, -128, -129, -(1 << 31) - 1, -(1 << 40), -(1 << 63), 0, 9, 1 << 33]), v)
+            v = re.sub(r'\(hnd -?\d+\)', lambda m_: '(hnd %d)' % rng.choice([-2, -5, -128, -129, -(1 << 31) - 1, -(1 << 40), -(1 << 63), 0, 9, 127, 128, 32768, (1 << 31) - 1, 1 << 31, (1 << 31) + 5, (1 << 32) - 1, 1 << 32, 1 << 33, (1 << 63) - 1]), v)
             ncases.append((i, v))
     no_ = run_harness(pool, ['enc T%d %s' % c for c in ncases])
     back = []
